@@ -208,6 +208,15 @@ def wsgi_access(req, op, keep):
         if op == "close":
             req.close()
             return ("v", None), None
+        if op == "obtain":  # ask for the stream now, read it later
+            keep.append(("obtained", req.stream()))
+            return ("v", None), None
+        if op == "drain":
+            g = next((x for x in keep if isinstance(x, tuple) and x[0] == "obtained"), None)
+            if g is None:
+                return ("skipped",), None
+            keep.remove(g)
+            return ("v", b"".join(g[1])), None
     except Exception as e:  # noqa
         return classify_exc(e), None
 
@@ -242,7 +251,11 @@ def run_sequence(iface, kind, chunks, seq, disc_at=None):
         results = []
         for i, op in enumerate(seq):
             got, obj = wsgi_access(req, op, keep)
-            want = ref.step(op)
+            if got == ("skipped",):
+                results.append(got)
+                continue
+            # a stream object that was asked for earlier behaves, when it is finally read, like a stream asked for now
+            want = ("v", None) if op == "obtain" else ref.step("stream_full" if op == "drain" else op)
             results.append(got)
             if not compare(got, want, ref.B):
                 problems.append((i, op, got, want))
@@ -285,6 +298,15 @@ async def asgi_access(req, op, keep):
             return ("v", None), None
         if op == "poll":
             return ("v", await req.is_disconnected()), None
+        if op == "obtain":
+            keep.append(("obtained", req.stream()))
+            return ("v", None), None
+        if op == "drain":
+            g = next((x for x in keep if isinstance(x, tuple) and x[0] == "obtained"), None)
+            if g is None:
+                return ("skipped",), None
+            keep.remove(g)
+            return ("v", b"".join([c async for c in g[1]])), None
     except Exception as e:  # noqa
         return classify_exc(e), None
 
@@ -331,7 +353,10 @@ def run_sequence_asgi(kind, chunks, seq, disc_at):
                     state["polling"] = False
                 else:
                     got, obj = await asgi_access(req, op, keep)
-                    want = ref.step(op)
+                    if got == ("skipped",):
+                        results.append(got)
+                        continue
+                    want = ("v", None) if op == "obtain" else ref.step("stream_full" if op == "drain" else op)
                 results.append(got)
                 if not compare(got, want, ref.B):
                     problems.append((i, op, got, want))
@@ -399,6 +424,7 @@ def run_concurrent(prefix, kind, msgs, program, has_disc):
         x = s.drive(All(), prefix, env_filter=flt)
         obs["stuck"] = x.obs["stuck"] or (None if all(t.done() for t in tasks) else "pending")
         obs["task_exc"] = [repr(t.exception()) for t in tasks if t.done() and not t.cancelled() and t.exception()]
+        obs["cancelled"] = [i for i, t in enumerate(tasks) if t.done() and t.cancelled()]
         q = s.quiescence()
         obs["loop_errors"] = q["loop_errors"]
     return Execution(x.choices, x.points, obs)
@@ -411,6 +437,11 @@ def judge_concurrent(kind, msgs, program, has_disc, obs):
         probs.append(f"stuck: {obs['stuck']}")
     if obs["task_exc"]:
         probs.append(f"harness task raised {obs['task_exc']}")
+    if obs.get("cancelled"):
+        probs.append(f"task(s) {obs['cancelled']} got a CancelledError out of an access although nobody cancelled them")
+    for name, acc in enumerate(program):
+        if not obs["stuck"] and len(obs["results"].get(name, ())) != len(acc) and name not in obs.get("cancelled", ()):
+            probs.append(f"task {name} finished {len(obs['results'].get(name, ()))} of {len(acc)} accesses")
     if obs["after_final"] and not has_disc:
         probs.append(f"receive() called {obs['after_final']} time(s) after the final message")
     if obs["receive_calls"] > len(msgs) + obs["after_final"]:
@@ -449,6 +480,10 @@ def conc_programs(tier):
     singles = [(a,) for a in menu]
     doubles = [(a, b) for a in menu for b in menu + ["close"]]
     progs = [(p, q) for p in singles + doubles for q in singles + doubles]
+    # close() arriving from another task while accesses are still in flight: it must not disturb them
+    closers = [("close",)] + [("close", a) for a in menu]
+    progs += [(c, q) for c in closers for q in singles + doubles]
+    progs += [(("body",), ("form",), ("close",)), (("form",), ("form",), ("close",)), (("json",), ("form",), ("close",)), (("stream_full",), ("form",), ("close",)), (("form",), ("close",), ("close", "body"))]
     if tier == "thorough":
         progs += [(p, q, t) for p in singles for q in singles for t in singles]
     return progs
@@ -615,7 +650,9 @@ def run_shard(desc, tier):
             variants += [(base, d) for d in range(len(base) + 0)] + [([B], 0)]
         for chunks, disc_at in variants:
             for n in range(1, DEPTH[tier] + 1):
-                for seq in itertools.product(ACCESSES + (["poll"] if iface == "asgi" else []), repeat=n):
+                for seq in itertools.product(ACCESSES + ["obtain", "drain"] + (["poll"] if iface == "asgi" else []), repeat=n):
+                    if "drain" in seq and "obtain" not in seq[:seq.index("drain")]:
+                        continue
                     probs, key, results = run_sequence(iface, kind, chunks, seq, disc_at)
                     r.count("evaluations")
                     r.count("transitions", len(results))
